@@ -111,6 +111,15 @@ def run_all(ctx):
             "array.chunk-size": r.choice(["1B", "16B", "64B", "256B", "1KiB", "64KiB", "1MiB"]),
             "array.rechunk.degree-limit": r.choice([2, 3, 4, 10, 100]),
         }
+        if r.random() < 0.15:
+            # the same pair was planned earlier in this process under a more generous configuration: the plan made
+            # now must still respect the limits in force now (the contract on plan_rechunk reads the current config)
+            with dask.config.set({"array.rechunk.threshold": cfg["array.rechunk.threshold"], "array.chunk-size": "1MiB", "array.rechunk.degree-limit": cfg["array.rechunk.degree-limit"]}):
+                try:
+                    R.plan_rechunk(old, new, itemsize)
+                    ctx.count("pairs_planned_earlier_under_another_config")
+                except Exception:
+                    pass
         with dask.config.set(cfg):
             try:
                 plan = R.plan_rechunk(old, new, itemsize)
